@@ -62,6 +62,11 @@ PROBES = {
     # Table
     'table': 'a | b\n--|:-:\n1 | 2\n`c|d` | **e**\n',
     'table_interrupt': 'para\na | b\n- | -\n1 | 2\n',
+    # a table whose header is NOT preceded by a paragraph line (no interrupt check runs before Table.read), at line index 1
+    'heading_then_table': '# T\na | b\n- | -\n1 | 2\n',
+    'hr_then_table': '***\na | b\n:-|-:\n1 | 2\n',
+    'blank_then_table': '\na | b\n- | -\n1 | 2\n',
+    'heading_then_pipe_para': '# T\nfoo | bar\n',
     # a paragraph followed, without a blank line, by each construct that may or may not interrupt it
     # (the lists of "breaking tokens" are derived from the active token set at parse time)
     'para_html': 'foo\n<div>\nbar\n',
@@ -106,7 +111,7 @@ PROBES = {
     'xwiki_macro': '{{macro}}\nbody\n{{/macro}}\n',
     'hr': '***\n---\n___\n',
     # benign custom tokens: must be literal text outside their context
-    'custom': '{{x}} and {{*y*}} <<twin *t*>> --dash--\n\n!!! bang *line*\n\npara\n!!! interrupts?\n\nintro\n!! callout !!\nmore\n',
+    'custom': '{{x}} and {{*y*}} <<twin *t*>> --dash-- ((re *enter* `c` &copy))\n\n!!! bang *line*\n\npara\n!!! interrupts?\n\nintro\n!! callout !!\nmore\n',
     # edge
     'empty': '',
     'blank': '\n',
@@ -208,7 +213,7 @@ PROBES.update(INTERRUPT_PROBES)
 # one sentinel per row of the state table (systematic sweep uses these right after every fault variant)
 SENTINELS = ['setext2', 'plain', 'code', 'ref_shortcut', 'ref_undefined', 'entity_def', 'headings',
              'fence_tilde', 'html2', 'table_interrupt', 'list_tight', 'list_loose', 'custom', 'quote',
-             'html_script', 'para_html', 'list_para_html', 'quote_para_html', 'pyg_unknown']
+             'html_script', 'para_html', 'list_para_html', 'quote_para_html', 'pyg_unknown', 'heading_then_table']
 
 # documents that end in an exception without any custom token (F3b); when a later tree no longer
 # crashes on them they silently become ordinary documents
@@ -265,6 +270,19 @@ def place(line, placement):
         return '## ' + line + '\n\n[ref]: /u\n'
     if placement == 'table':
         return 'h1 | h2\n-- | --\n' + line + ' | x\n\n[ref]: /u\n'
+    # the trigger line is at the same time the first line of a construct that interrupts the paragraph before it
+    if placement == 'para_then_table':
+        return 'intro `c`\n| ' + line + ' | x |\n|---|---|\n| old | row |\n\n[ref]: /u\n'
+    if placement == 'para_then_heading':
+        return 'intro `c`\n# ' + line + '\n\n[ref]: /u\n'
+    if placement == 'para_then_fence':
+        return 'intro `c`\n```' + line.split()[0] + '\ncode\n```\n\n[ref]: /u\n'
+    if placement == 'para_then_html':
+        return 'intro `c`\n<div class="' + line.split()[0] + '">\nx\n</div>\n\n[ref]: /u\n'
+    if placement == 'para_then_list':
+        return 'intro `c`\n- ' + line + '\n\n[ref]: /u\n'
+    if placement == 'para_then_quote':
+        return 'intro `c`\n> ' + line + '\n\n[ref]: /u\n'
     raise ValueError(placement)
 
 
@@ -273,6 +291,8 @@ def fault_doc(tok_id, placement):
     if tok_id in ('FaultBlockStart', 'FaultBlockRead', 'FaultBlockInit', 'FaultBlockInterrupt', 'FaultBlockReadAbort'):
         if placement in ('heading', 'table'):
             placement = 'top'
+        if placement.startswith('para_then_'):
+            return place('FAULTLINE', placement)
         if tok_id == 'FaultBlockInterrupt' and placement == 'top':
             placement = 'after_para'
         line = 'FAULTLINE'
